@@ -83,90 +83,104 @@ def run_gates(ctx):
     ctx.suite("gates", cases=len(cases))
     objs = [gen.build_stmt(sp) for _, sp in cases]
     mres = model.call_many([["get_matrix", n, ser.ser_gate(g)] for (n, _), g in zip(cases, objs)])
-    for (n, sp), g, (margin, r) in zip(cases, objs, mres):
-        case = {"n": n, "spec": sp}
-        ctx.seen(case)
-        im = impl_matrix(g, n)
-        mm = mat_from(r)
-        ops = gen.spec_qubits(sp)
-        in_range = all(0 <= q < n for q in ops)
-        ctx.bump("in_range" if in_range else "out_of_range")
-        ctx.bump("kind_" + sp[0])
-        eq = True
-        if im[0] != mm[0]:
-            ctx.disagree("gates", case, f"impl {im[0]}:{im[1] if im[0]=='err' else ''} model {mm[0]}:{mm[1] if mm[0]=='err' else ''}", margin)
-            eq = False
-        elif im[0] == "ok":
-            d = float(np.abs(im[1] - mm[1]).max())
-            if d > 1e-12:
-                ctx.disagree("gates", case, f"matrix entries differ by {d:.3g}", margin)
-                eq = False
-        elif im[1] != mm[1]:
-            ctx.disagree("gates", case, f"error kinds {im[1]} vs {mm[1]}", margin)
-            eq = False
-        # oracle
-        if not in_range:
-            if im[0] == "ok":
-                ctx.oracle_fail("gates", case, "operand outside the register accepted", eq)
-            continue
-        if im[0] != "ok":
-            ctx.oracle_fail("gates", case, f"valid gate refused: {im[1]}", eq)
-            continue
-        small, sops = oracles.gate_small(g)
-        want = oracles.embed(n, small, sops)
-        d = float(np.abs(im[1] - want).max())
-        if d > 1e-12:
-            ctx.oracle_fail("gates", case, f"matrix differs from the textbook embedding by {d:.3g}", eq)
-            continue
-        u = im[1]
-        du = float(np.abs(u.conj().T @ u - np.eye(1 << n)).max())
-        if du > 1e-9:
-            ctx.oracle_fail("gates", case, f"not unitary ({du:.3g})", eq)
+    for (n, sp), g, mr in zip(cases, objs, mres):
+        check_gate(ctx, {"n": n, "spec": sp}, g, mr)
     ctx.sample({"n": cases[0][0], "spec": cases[0][1]})
 
 
-def run_bits(ctx):
+def check_gate(ctx, case, g, mr):
+    n, sp = case["n"], case["spec"]
+    margin, r = mr
+    ctx.seen(case)
+    im = impl_matrix(g, n)
+    mm = mat_from(r)
+    ops = gen.spec_qubits(sp)
+    in_range = all(0 <= q < n for q in ops)
+    ctx.bump("in_range" if in_range else "out_of_range")
+    ctx.bump("kind_" + sp[0])
+    eq = True
+    if im[0] != mm[0]:
+        ctx.disagree("gates", case, f"impl {im[0]}:{im[1] if im[0]=='err' else ''} model {mm[0]}:{mm[1] if mm[0]=='err' else ''}", margin)
+        eq = False
+    elif im[0] == "ok":
+        d = float(np.abs(im[1] - mm[1]).max())
+        if d > 1e-12:
+            ctx.disagree("gates", case, f"matrix entries differ by {d:.3g}", margin)
+            eq = False
+    elif im[1] != mm[1]:
+        ctx.disagree("gates", case, f"error kinds {im[1]} vs {mm[1]}", margin)
+        eq = False
+    # oracle
+    if not in_range:
+        if im[0] == "ok":
+            ctx.oracle_fail("gates", case, "operand outside the register accepted", eq)
+        return
+    if im[0] != "ok":
+        ctx.oracle_fail("gates", case, f"valid gate refused: {im[1]}", eq)
+        return
+    small, sops = oracles.gate_small(g)
+    want = oracles.embed(n, small, sops)
+    d = float(np.abs(im[1] - want).max())
+    if d > 1e-12:
+        ctx.oracle_fail("gates", case, f"matrix differs from the textbook embedding by {d:.3g}", eq)
+        return
+    u = im[1]
+    du = float(np.abs(u.conj().T @ u - np.eye(1 << n)).max())
+    if du > 1e-9:
+        ctx.oracle_fail("gates", case, f"not unitary ({du:.3g})", eq)
+
+
+def bits_request(c):
+    return ["reduced_ket", c["ket"], c["qs"]] if c["fn"] == "reduced_ket" else ["expand_ket", c["base"], c["red"], c["qs"]]
+
+
+def impl_bits(c):
     from opensquirrel.ir import Qubit
     from opensquirrel.utils.matrix_expander import expand_ket, get_reduced_ket
 
-    reqs, want, cases = [], [], []
+    qs = [Qubit(q) for q in c["qs"]]
+    return get_reduced_ket(c["ket"], qs) if c["fn"] == "reduced_ket" else expand_ket(c["base"], c["red"], qs)
+
+
+def run_bits(ctx):
+    want, cases = [], []
     nbits = ctx.pick(5, 6)
     lists = [list(p) for k in range(0, 4) for p in itertools.product(range(nbits), repeat=k)]
     kets = range(1 << nbits)
     for qs in lists:
         for ket in (kets if not ctx.quick else list(kets)[::3]):
-            reqs.append(["reduced_ket", ket, qs])
-            want.append(get_reduced_ket(ket, [Qubit(q) for q in qs]))
             cases.append({"fn": "reduced_ket", "ket": ket, "qs": qs})
+            want.append(impl_bits(cases[-1]))
     for qs in lists:
         for base in (kets if not ctx.quick else list(kets)[::5]):
             for red in range(1 << min(3, len(qs) + 1)):
-                reqs.append(["expand_ket", base, red, qs])
-                want.append(expand_ket(base, red, [Qubit(q) for q in qs]))
                 cases.append({"fn": "expand_ket", "base": base, "red": red, "qs": qs})
-    mres = model.call_many(reqs)
-    bad = 0
-    for c, w, (_, r) in zip(cases, want, mres):
-        v = int(str(r))
-        # oracle: bit-level definition
-        if c["fn"] == "reduced_ket":
-            o = sum(((c["ket"] >> q) & 1) << i for i, q in enumerate(c["qs"]))
-        else:
-            o = c["base"]
-            for i, q in enumerate(c["qs"]):
-                o = (o & ~(1 << q)) | (((c["red"] >> i) & 1) << q)
-        if v != w:
-            ctx.disagree("bits", c, f"impl {w} model {v}")
-        if w != o:
-            ctx.oracle_fail("bits", c, f"impl {w} expected {o}", v == w)
-        ctx.seen(c, len(c["qs"]) > 0)
+                want.append(impl_bits(cases[-1]))
+    mres = model.call_many([bits_request(c) for c in cases])
+    for c, w, mr in zip(cases, want, mres):
+        check_bits(ctx, c, w, mr)
     ctx.suite("bits", cases=len(cases), exhaustive=True, bits=nbits, max_list_length=3)
     ctx.exhaustive = True
 
 
-def run_circuits(ctx):
-    from opensquirrel.circuit_matrix_calculator import get_circuit_matrix
+def check_bits(ctx, c, w, mr):
+    _, r = mr
+    v = int(str(r))
+    # oracle: bit-level definition
+    if c["fn"] == "reduced_ket":
+        o = sum(((c["ket"] >> q) & 1) << i for i, q in enumerate(c["qs"]))
+    else:
+        o = c["base"]
+        for i, q in enumerate(c["qs"]):
+            o = (o & ~(1 << q)) | (((c["red"] >> i) & 1) << q)
+    if v != w:
+        ctx.disagree("bits", c, f"impl {w} model {v}")
+    if w != o:
+        ctx.oracle_fail("bits", c, f"impl {w} expected {o}", v == w)
+    ctx.seen(c, len(c["qs"]) > 0)
 
+
+def run_circuits(ctx):
     rng = ctx.rng
     cases = []
     for _ in range(ctx.pick(120, 1500)):
@@ -175,67 +189,78 @@ def run_circuits(ctx):
         cases.append((n, specs))
     circuits = [gen.build_circuit(n, 1, specs) for n, specs in cases]
     mres = model.call_many([["circuit_matrix", n, ser.ser_stmts(c.ir.statements)] for (n, _), c in zip(cases, circuits)])
-    for (n, specs), c, (margin, r) in zip(cases, circuits, mres):
-        case = {"n": n, "nb": 1, "specs": specs}
-        ctx.seen(case, any(gen.is_gate_spec(s) for s in specs))
-        m = get_circuit_matrix(c)
-        mm = mat_from(r)
-        eq = mm[0] == "ok" and float(np.abs(m - mm[1]).max()) < 1e-10
-        if not eq:
-            ctx.disagree("circuits", case, "circuit matrix differs from the model's", margin)
-        want = oracles.circuit_unitary(c.ir.statements, n)
-        d = float(np.abs(m - want).max())
-        if d > 1e-10:
-            ctx.oracle_fail("circuits", case, f"circuit matrix is not the product of its gates in program order ({d:.3g})", eq)
+    for (n, specs), c, mr in zip(cases, circuits, mres):
+        check_circuit(ctx, {"n": n, "nb": 1, "specs": specs}, c, mr)
     ctx.suite("circuits", cases=len(cases))
+
+
+def check_circuit(ctx, case, c, mr):
+    from opensquirrel.circuit_matrix_calculator import get_circuit_matrix
+
+    n, specs = case["n"], case["specs"]
+    margin, r = mr
+    ctx.seen(case, any(gen.is_gate_spec(s) for s in specs))
+    m = get_circuit_matrix(c)
+    mm = mat_from(r)
+    eq = mm[0] == "ok" and float(np.abs(m - mm[1]).max()) < 1e-10
+    if not eq:
+        ctx.disagree("circuits", case, "circuit matrix differs from the model's", margin)
+    want = oracles.circuit_unitary(c.ir.statements, n)
+    d = float(np.abs(m - want).max())
+    if d > 1e-10:
+        ctx.oracle_fail("circuits", case, f"circuit matrix is not the product of its gates in program order ({d:.3g})", eq)
 
 
 def run_history(ctx):
     """matrix, in-place pass on the same objects, matrix again: the second matrix must be the operator of the NEW state"""
-    from opensquirrel.circuit_matrix_calculator import get_circuit_matrix
-    from opensquirrel.utils.matrix_expander import get_matrix
-
-    from harness import implrun
-
     rng = ctx.rng
     n_cases = 0
     for _ in range(ctx.pick(80, 800)):
         n = rng.randint(2, 4)
         specs = [s for s in gen.rand_circuit_spec(rng, n, 1, rng.randint(1, 7), p_nongate=0.1, max_ctrl=2) if s[0] != "measure_z"]
-        c = gen.build_circuit(n, 1, specs)
         perm = list(range(n))
         rng.shuffle(perm)
         step = rng.choice([["map", perm], ["map", perm], ["merge"], ["decompose", "zyz"]])
-        case = {"n": n, "nb": 1, "specs": specs, "history": ["matrix", step, "matrix"]}
+        check_history(ctx, {"n": n, "nb": 1, "specs": specs, "history": ["matrix", step, "matrix"]})
         n_cases += 1
-        ctx.seen(case, any(gen.is_gate_spec(s) for s in specs))
-        try:
-            get_circuit_matrix(c)
-            for s in c.ir.statements:
-                if oracles.is_gate(s):
-                    get_matrix(s, n)
-            implrun.apply_pass(c, step)
-        except Exception:  # noqa: BLE001
-            continue
-        m2 = get_circuit_matrix(c)
-        want = oracles.circuit_unitary(c.ir.statements, n)
-        d = float(np.abs(m2 - want).max())
-        (mg, r), = model.call_many([["circuit_matrix", n, ser.ser_stmts(c.ir.statements)]])
-        mm = mat_from(r)
-        eq = mm[0] == "ok" and float(np.abs(m2 - mm[1]).max()) < 1e-10
-        if not eq:
-            ctx.disagree("history", case, "circuit matrix after an in-place pass differs from the model's matrix of the new state", mg)
-        if d > 1e-10:
-            ctx.oracle_fail("history", case, f"after {step[0]} the circuit matrix is not the product of the gates as they are now ({d:.3g})", eq)
-            continue
+    ctx.suite("history", cases=n_cases)
+
+
+def check_history(ctx, case):
+    from opensquirrel.circuit_matrix_calculator import get_circuit_matrix
+    from opensquirrel.utils.matrix_expander import get_matrix
+
+    from harness import implrun
+
+    n, specs, step = case["n"], case["specs"], case["history"][1]
+    c = gen.build_circuit(n, 1, specs)
+    ctx.seen(case, any(gen.is_gate_spec(s) for s in specs))
+    try:
+        get_circuit_matrix(c)
         for s in c.ir.statements:
             if oracles.is_gate(s):
-                small, sops = oracles.gate_small(s)
-                dd = float(np.abs(get_matrix(s, n) - oracles.embed(n, small, sops)).max())
-                if dd > 1e-12:
-                    ctx.oracle_fail("history", case, f"after {step[0]} get_matrix of {s!r} is not the operator on its current qubits ({dd:.3g})", eq)
-                    break
-    ctx.suite("history", cases=n_cases)
+                get_matrix(s, n)
+        implrun.apply_pass(c, step)
+    except Exception:  # noqa: BLE001
+        return
+    m2 = get_circuit_matrix(c)
+    want = oracles.circuit_unitary(c.ir.statements, n)
+    d = float(np.abs(m2 - want).max())
+    (mg, r), = model.call_many([["circuit_matrix", n, ser.ser_stmts(c.ir.statements)]])
+    mm = mat_from(r)
+    eq = mm[0] == "ok" and float(np.abs(m2 - mm[1]).max()) < 1e-10
+    if not eq:
+        ctx.disagree("history", case, "circuit matrix after an in-place pass differs from the model's matrix of the new state", mg)
+    if d > 1e-10:
+        ctx.oracle_fail("history", case, f"after {step[0]} the circuit matrix is not the product of the gates as they are now ({d:.3g})", eq)
+        return
+    for s in c.ir.statements:
+        if oracles.is_gate(s):
+            small, sops = oracles.gate_small(s)
+            dd = float(np.abs(get_matrix(s, n) - oracles.embed(n, small, sops)).max())
+            if dd > 1e-12:
+                ctx.oracle_fail("history", case, f"after {step[0]} get_matrix of {s!r} is not the operator on its current qubits ({dd:.3g})", eq)
+                break
 
 
 def run(ctx):
@@ -250,11 +275,19 @@ def run(ctx):
 
 
 def replay(ctx, payload):
-    c = payload.get("case") or (payload.get("first_disagreement") or {}).get("case")
+    from harness import framework
+
+    suite, c = framework.replay_target(payload)
+    if c is None:
+        return framework.replay_nothing(payload)
     if "spec" in c:
         g = gen.build_stmt(c["spec"])
-        im = impl_matrix(g, c["n"])
-        small, sops = oracles.gate_small(g)
-        fails = im[0] != "ok" or float(np.abs(im[1] - oracles.embed(c["n"], small, sops)).max()) > 1e-12
-        return {"impl": im[0], "fails": bool(fails)}
-    return {"case": c, "fails": payload.get("kind") == "oracle"}
+        check_gate(ctx, c, g, model.call_many([["get_matrix", c["n"], ser.ser_gate(g)]])[0])
+    elif "fn" in c:
+        check_bits(ctx, c, impl_bits(c), model.call_many([bits_request(c)])[0])
+    elif "history" in c:
+        check_history(ctx, c)
+    else:
+        circuit = gen.build_circuit(c["n"], 1, c["specs"])
+        check_circuit(ctx, c, circuit, model.call_many([["circuit_matrix", c["n"], ser.ser_stmts(circuit.ir.statements)]])[0])
+    return framework.replay_result(ctx)
